@@ -192,6 +192,10 @@ func (g *valGen) val(t *rapid.T, typ reflect.Type, depth int) GoVal {
 		return out
 	case reflect.Struct:
 		out := GoVal{}
+		if (typ.Name() == "ZeroVal" || typ.Name() == "ZeroPtr") && rapid.Bool().Draw(t, "vzero") {
+			// the IsZero()==true value must be common, not a 1-in-10 accident
+			return GoVal{Elems: []GoVal{{I: 0}}}
+		}
 		for i := 0; i < typ.NumField(); i++ {
 			if depth > 5 && (typ.Field(i).Type.Kind() == reflect.Slice) {
 				out.Elems = append(out.Elems, GoVal{Nil: true})
